@@ -38,6 +38,13 @@ PRESENCE_NEUTRAL = {
         "ensure_subspace (both branches are checked by C02/C04)",
 }
 
+# node fields that *are* the observable results (the property: "known attractors are preserved", structure untouched)
+RESULT_FIELDS = {
+    "attractor_seeds": "the known attractors of the node",
+    "attractor_sets": "the known attractors of the node",
+    "space": "node identity", "depth": "structure", "expanded": "structure", "parent_node": "structure", "skipped": "structure",
+}
+
 ASSUMPTIONS = [
     "BooleanNetwork.from_aeon orders variables by name (AEON text format); to_aeon/from_aeon round-trips update functions",
     "pickle preserves networkx graphs and plain dict/list data",
@@ -439,7 +446,7 @@ def p4(ck: Check) -> dict[str, str]:
                                                "clears cannot be determined")
                 continue
             lost = sorted(f for f in flds if f not in acc)
-            probs = []
+            probs = [f"`{x}` is a result, not a cache ({RESULT_FIELDS[x]})" for x in sorted(flds) if x in RESULT_FIELDS]
             if not is_none(e.value):
                 probs.append(f"reclaim stores `{text(e.value)}` (only None is transparent)")
             if lost:
@@ -451,6 +458,9 @@ def p4(ck: Check) -> dict[str, str]:
         probs = []
         if not is_none(e.value):
             probs.append(f"reclaim stores `{text(e.value)}` (only None is transparent)")
+        if e.field in RESULT_FIELDS:
+            probs.append(f"`{e.field}` is a result, not a cache ({RESULT_FIELDS[e.field]}): after the call a query that does not "
+                         f"ask for recomputation no longer knows it")
         if e.field not in acc:
             probs.append(f"field `{e.field}` has no recompute-on-demand accessor: the information is lost for good")
         ck.ob("P4", fm, e.stmt, not probs, "; ".join(probs) if probs else
